@@ -85,7 +85,7 @@ CHECKS = {
              'implementation\'s model must define the same joint distribution, compared through E[(-1)^(s.x)] on all unit vectors, '
              'pairs and random vectors (exact to 1e-7; with approximate_disjoint_errors within the first-order bound 2*P^2 per '
              'approximated channel); rejections (non-deterministic detector/observable, channels needing the approximation, '
-             'over-mixing) must match the specification; options fold_loops / allow_gauge_detectors / approximate_disjoint_errors. Rejection clause: a non-deterministic observable (also one sharing its anticommuting set with a gauge detector) must be refused whether or not gauge detectors are allowed. The probability folding of add_error is translated to Q and proved equal to the merge rule by ring (GenProofs_AddError); MPP / SPP entry points of the backward classes are tied from source and MppRev proves the reversed target list is the reversed products with the same content.',
+             'over-mixing) must match the specification; options fold_loops / allow_gauge_detectors / approximate_disjoint_errors. Rejection clause: a non-deterministic observable (also one sharing its anticommuting set with a gauge detector) must be refused whether or not gauge detectors are allowed. The probability folding of add_error is translated to Q and proved equal to the merge rule by ring (GenProofs_AddError); MPP / SPP entry points of the backward classes are tied from source and MppRev proves the reversed target list is the reversed products with the same content. RevTrack: along whole runs (any number of Clifford steps and Hermitian measurements) the flip parity of a detector under a Pauli error E is [E, sensitivity] for every frame randomisation when the tracker\'s anticommutation check passes (fparz_is_acom), and such detectors whose start sensitivity commutes with the initial group are deterministic over all legal runs (detector_deterministic, via frame completeness).',
         note=TB + ' The analyzer\'s bookkeeping (add_error_combinations, gauge removal, unreversed) is not modelled in Coq; pair and product measurements enter the '
                   'adjointness theorem only through their decomposition. Distribution equality is '
                   'a randomized identity test over test vectors.',
@@ -178,7 +178,7 @@ CHECKS = {
              'coin part (proved to mean the same value under every coin assignment); the text must equal the canonical print of its own '
              'parse; detector/observable/measurement counts must match the closed forms in (d, rounds); for repetition and surface '
              'memory tasks with all four noise parameters on, the shortest graphlike undetectable logical error must have exactly d '
-             'errors; invalid parameter combinations must be rejected. The documented parameter ranges are checked as a grid (distance, rounds, probabilities).',
+             'errors; invalid parameter combinations must be rejected. The documented parameter ranges are checked as a grid (distance, rounds, probabilities). RevTrack.detector_deterministic_zero_state proves the determinism criterion sound for Clifford + measurement runs of any length.',
         note=TB + ' The generators are not transcribed into Gallina: the claim is per grid point (exhaustive over the stated grid), not '
                   'for all distances and round counts; the distance uses the implementation\'s graphlike search (validated by C17).',
         design='§4 C19'),
@@ -218,7 +218,7 @@ CHECKS = {
              'REPEAT, TICKs) every location returned by ErrorMatcher::explain_errors_from_circuit is mapped through its stack frames '
              'to a position of the unrolled circuit; the reported Pauli product is injected there (or the reported measurement result '
              'is flipped as later feedback sees it) in Spec.srun and must flip exactly the error\'s detectors/observables; gate name, '
-             'target range and tick must identify that position; every error of the model (or filter) must have a location. Caller-supplied filter models (subsets, separators, cancelling repeated targets) are used besides the circuit\'s own model.',
+             'target range and tick must identify that position; every error of the model (or filter) must have a location. Caller-supplied filter models (subsets, separators, cancelling repeated targets) are used besides the circuit\'s own model. RevTrack.error_flips_iff_anticommutes: on whole runs an injected Pauli flips exactly the detectors whose back-propagated sensitivity it anticommutes with.',
         note=TB + ' The matcher\'s bookkeeping is not modelled in Coq; reported coordinates are compared with the circuit\'s coordinate queries (C15).',
         design='§4 C18'),
     'C14': dict(
